@@ -582,8 +582,8 @@ func (c *C11) Init(tier string, worker, nworkers int, seed uint64) error {
 	// the other mode's system has the SAME dimensions where a second setup is affordable: a node that handles both
 	// modes of one tree loads exactly such a pair of files in one process
 	odepth, obatch := 2, 1
-	if depth <= 6 && batch <= 7 {
-		odepth, obatch = depth, batch
+	if depth <= 6 && batch <= 7 && (omode == rollup.Deletion || 1<<uint(depth) >= 2*batch) {
+		odepth, obatch = depth, batch // (an insertion batch must fit into the tree, with room for a history)
 	}
 	o, err := gtier.Setup(omode, odepth, obatch, 0)
 	if err != nil {
